@@ -55,14 +55,17 @@ def hint_pool(tier, seed):
             if '[' not in name or any(name.endswith(f'[{l}]') for l in ('int', 'str', 'UA', 'Lit1', 'bool', 'object', 'TU', 'TB')) \
                     or (',' in name and i % 5 == 0):
                 keep.append((name, h))
-        out = keep[:230] + grammar.annotated_hints(1, limit=24)[:24] + [h for h in grammar.special_hints() if 'Any' not in h[0]][::4] + TWINS
+        out = keep[:230] + grammar.annotated_hints(1, limit=24)[:24] + [h for h in grammar.special_hints() if 'Any' not in h[0] and 'LiteralString' not in h[0] and 'Unpack' not in h[0] and '*tuple' not in h[0]][::4] + TWINS
     else:
         quick = hint_pool('quick', seed)
         out = quick + out[:700] + grammar.special_hints() + grammar.hints_depth2_curated()[::4] + [
             ('Union[TB,str]', typing.Union[grammar.TB, str]), ('Union[TC,None]', typing.Optional[grammar.TC]),
             ('Optional[NTInt]', typing.Optional[grammar.NTInt]), ('Union[TL,int]', typing.Union[grammar.TL, int]),
             ('TBU', TBU), ('Optional[TBU]', typing.Optional[TBU]), ('List[Optional[TB]]', typing.List[typing.Optional[grammar.TB]])]
-        out = [(n, h) for n, h in out if 'Any' not in n and 'object' != n and 'Callable' not in n]
+        # LiteralString and PEP 646 unpacked tuples are not among the hint kinds the property quantifies over (the door API wraps it as
+        # a class hint with origin `object`, so everything is a subhint of it); left out, see DESIGN 8.3
+        out = [(n, h) for n, h in out if 'Any' not in n and 'object' != n and 'Callable' not in n and 'LiteralString' not in n
+               and 'Unpack' not in n and '*tuple' not in n]
         seen, ded = set(), []
         for n, h in out:
             if n not in seen:
